@@ -205,11 +205,14 @@ TLoad ==
                         <<Ev.rcount = Len(stored), "C05:Count() of the restored snapshot differs from the stored snapshot">> >>)
        ELSE /\ UNCHANGED <<vars, drift, stored, dx>>
             /\ bad' = Note(bad, "C05:LoadFromDisk failed on an undamaged backup", "BAD")
+(* a panic raised by a legal call sequence is behaviour of the real code (driver: guarded()) *)
+TPanic == /\ l <= N /\ Ev.e = "Panic" /\ l' = l + 1 /\ UNCHANGED <<vars, drift, stored, dx>>
+          /\ bad' = Note(bad, "PANIC:the call panicked: " \o Ev.msg \o " (" \o Ev.where \o ")", "BAD")
 TDone == l = N + 1 /\ UNCHANGED tvars
 
 TNext == \/ TReset \/ TPut \/ TDelete \/ TGetNode \/ TNewSnapshot \/ TOpen \/ TCloseSnap \/ TGC \/ TGCUnlink
          \/ TIterNew \/ TIterSetRate \/ TIterSeek \/ TIterSeekFirst \/ TIterNext \/ TIterRefresh \/ TIterClose
-         \/ TVisit \/ TStoreBegin \/ TStore \/ TLoad \/ TDone
+         \/ TVisit \/ TStoreBegin \/ TStore \/ TLoad \/ TPanic \/ TDone
 TSpec == TInit /\ [][TNext]_tvars
 Good == bad = ""
 =============================================================================
